@@ -34,7 +34,8 @@ func c11(tier string) int {
 			{Family: "grpc-kv-keys", From: 1, To: 3},
 			{Family: "grpc-iso", Params: "keys=2,slots=2,gc=0,deflevel=1", From: 1, To: 5},
 			{Family: "grpc-iso", Params: "keys=1,slots=2,gc=0,create=1", From: 1, To: 4},
-			{Family: "grpc-late", Params: "slots=2,nolatewrites=1", From: 1, To: 5},
+			{Family: "grpc-late", Params: "slots=2,nolatewrites=1", From: 1, To: 4},
+			{Family: "grpc-late", Params: "slots=1,levels=RC.RR,nolatewrites=1", From: 5, To: 5},
 		}
 	}
 	// error algebra and server verdicts: enumeration of (sentinel x wrapping shape x call) through a
@@ -44,7 +45,7 @@ func c11(tier string) int {
 	sumA := enum.RunPlans(rpA, []enum.Plan{{Family: "grpc-errors"}}, budgetA, verbose())
 	algebraViolations = rpA.Violations()
 	algebraCases = sumA.Cases
-	return seqCheckExtra("C11", tier, 180*time.Second, 20*time.Minute, plans,
+	return seqCheckExtra("C11", tier, 180*time.Second, 30*time.Minute, plans,
 		"all histories up to the stated depth of the C01 alphabet (all content lengths and Create splits on the last write), of the transactional alphabet (4 levels, 2 slots) and of late operations on finished / never-issued transactions, issued through external.Open against a running server; every result (values; error classes by errors.Is over the exported sentinels) must equal the reference model, which the inline client is held to by C01-C03/C13",
 		grpcAssumptions)
 }
